@@ -89,7 +89,7 @@ theorem step_good {a : CBA} {bs : List Block} {L : Ledger} (h : Inv a bs) (hL : 
     | none =>
       exact ⟨a, .unit, bs, rfl, h, hL, SameFrame.refl a, trivial⟩
     | some x =>
-      have hx : a.off ≤ x ∧ x < a.off + a.size := hv
+      have hx : x < a.off + a.size := hv
       obtain ⟨a', bs', e, hi, hfr, hu⟩ := free_inv h hx
       simp only [CBA.step]
       rw [e]
@@ -109,7 +109,7 @@ theorem inv_alloc {a : CBA} {bs : List Block} (h : Inv a bs) {n : Nat} (hn : 0 <
 /-- `Inv` is preserved by `free` of any address of the range; the used blocks afterwards are the
     used blocks before minus the one starting at `x` -/
 theorem inv_free {a : CBA} {bs : List Block} (h : Inv a bs) {x : Nat}
-    (hx : a.off ≤ x ∧ x < a.off + a.size) :
+    (hx : x < a.off + a.size) :
     ∃ a' bs', a.free (some x) = .ok a' ∧ Inv a' bs' ∧ SameFrame a' a ∧
       (∀ u, u.used = true → (u ∈ bs' ↔ u ∈ bs ∧ u.start ≠ x)) := free_inv h hx
 
@@ -132,7 +132,7 @@ theorem run_good {a : CBA} {bs : List Block} {L : Ledger} (h : Inv a bs) (hL : L
     · rw [hf1.1, hf1.2.1, hf1.2.2] at hs2; exact hs2
 
 /-- MAIN.  For every partition size, reserved offset, client offset, every history of
-    `alloc(n≥1)` / `free` (any address of the range, `None`) and every choice oracle:
+    `alloc(n≥1)` / `free` (any address below the end of the range, `None`) and every choice oracle:
     the allocator never raises, every range it hands out lies inside the client's partition
     and overlaps no live range, and it answers "no space" only when no free run of the
     requested length exists (so freed ranges, merged with their free neighbours, are available
@@ -293,7 +293,7 @@ theorem free_coalesces_and_reusable {size pos off : Nat} {a a' : CBA} {L : Ledge
   have hlive := live_ranges_disjoint h
   have hb := hlive.1 _ hx
   simp only at hb
-  have hv : (Op.free (some x)).Valid off size := ⟨by omega, by omega⟩
+  have hv : (Op.free (some x)).Valid off size := by show x < off + size; omega
   have e' : a.step (.free (some x)) = .ok (a', .unit) := by
     simp only [CBA.step, e, bind, Except.bind, pure, Except.pure]
   have h' := Reach.step h hv e'
@@ -309,7 +309,7 @@ theorem free_coalesces_and_reusable {size pos off : Nat} {a a' : CBA} {L : Ledge
 
 /-- freeing the same address twice: the second `free` changes nothing -/
 theorem double_free_noop {size pos off : Nat} {a a' : CBA} {L : Ledger}
-    (h : Reach size pos off a L) {x : Nat} (hx : off ≤ x ∧ x < off + size)
+    (h : Reach size pos off a L) {x : Nat} (hx : x < off + size)
     (e : a.free (some x) = .ok a') : a'.free (some x) = .ok a' := by
   obtain ⟨bs, hi, hL, ho, hs, hp⟩ := reach_inv h
   obtain ⟨a1, bs1, e1, hi1, hf1, hu⟩ := free_inv hi (x := x) (by rw [ho, hs]; exact hx)
@@ -324,7 +324,7 @@ theorem double_free_noop {size pos off : Nat} {a a' : CBA} {L : Ledger}
 theorem free_not_live_noop {size pos off : Nat} {a : CBA} {L : Ledger}
     (h : Reach size pos off a L) :
     a.free none = .ok a ∧
-    ∀ x, off ≤ x ∧ x < off + size → (∀ m, (x, m) ∉ L) → a.free (some x) = .ok a := by
+    ∀ x, x < off + size → (∀ m, (x, m) ∉ L) → a.free (some x) = .ok a := by
   refine ⟨rfl, ?_⟩
   intro x hx hno
   obtain ⟨bs, hi, hL, ho, hs, hp⟩ := reach_inv h
@@ -517,6 +517,13 @@ example : (do let a ← (CBA.init 7 0 21).elim (.error .index) .ok
               let r ← a.run [.alloc 2 3, .free (some 21), .alloc 7 0]
               pure r.2 : M (List Out))
     = .ok [.addr (some 21), .unit, .addr (some 21)] := by decide
+
+/-- the failing input of D-C16-1: `free(4)` on an allocator whose range starts at 13 is ignored;
+    before the repair it freed the live block at 17 -/
+example : (do let a ← (CBA.init 13 4 13).elim (.error .index) .ok
+              let r ← a.run [.alloc 1 0, .free (some 4), .alloc 3 0]
+              pure r.2 : M (List Out))
+    = .ok [.addr (some 17), .unit, .addr (some 18)] := by decide
 
 /-- a history with split, exact fit from the freed dict, merge with previous and next, a double
     free, a free of an interior address, free(None) and a "no space" answer -/
